@@ -5,7 +5,7 @@ cd /verif
 CHECKS=${@:-C01 C02 C03 C04 C05 C06 C07 C08 C09 C10 C11 C12 C13 C14 C15 C16 C17 C18 C19}
 mkdir -p out/negative
 rc=0
-for p in selftest/negative/*.patch; do
+for p in ${NEG_PATCHES:-selftest/negative/*.patch}; do
   name=$(basename $p .patch)
   wt=/tmp/negchk/$name
   rm -rf $wt; mkdir -p /tmp/negchk; git -C /repo worktree prune
